@@ -138,7 +138,10 @@ func init() {
 					fl, _ := strconv.ParseUint(a[0], 10, 32)
 					msg, ok := okPayload(out)
 					if !ok {
-						return []string{"-", "-"}, []string{"-", "-", "none"}
+						// no message: the model and the specification decide "refused" from the field lengths alone, so
+						// they get responses of the lengths CreateAuthenticateMessage computes (24, and 24 or 48 + target info)
+						lm0, nt0 := hx(make([]byte, 24)), hx(make([]byte, ntRespLen(uint32(fl), len(unhx(a[2])))))
+						return []string{lm0, nt0}, []string{lm0, nt0, "none"}
 					}
 					lm := cut(msg, 88, 112)
 					nt := cut(msg, 112, 112+ntRespLen(uint32(fl), len(unhx(a[2]))))
@@ -381,6 +384,8 @@ func genC08(r *Rng, tier string) []Case {
 	auth(fOEM, ra.Bytes(8), nil, "u", "pw", strings.Repeat("d", 65536), "W", "auth.len-65536")
 	auth(fOEM|fESS, ra.Bytes(8), make([]byte, 65536-48), "u", "pw", "d", "W", "auth.len-65536")
 	auth(fOEM|fESS, ra.Bytes(8), make([]byte, 65535-48), "u", "pw", "d", "W", "auth.len-65535")
+	auth(fOEM, ra.Bytes(8), nil, "u", "pw", "d", strings.Repeat("w", 65536), "auth.len-65536")
+	auth(fOEM, ra.Bytes(8), nil, strings.Repeat("u", 65535), "pw", strings.Repeat("d", 65535), strings.Repeat("w", 65535), "auth.len-65535")
 
 	// ---- CHALLENGE: well-formed, built by the generator, checked against Spec.buildChallenge
 	rc := r.Fork("chal")
